@@ -19,6 +19,8 @@ computation after k completions; a task failing with an injected OSError.
 """
 
 import contextlib
+import re
+import threading
 
 import numpy as np
 
@@ -29,11 +31,19 @@ class SimAbort(SimInterrupt):
     """Client interrupt of a running computation."""
 
 
+_FIN = re.compile(r"finalize-hlgfinalizecompute-[0-9a-f]{32}")
+
+
 def norm_key(k):
-    """Dask names the final collection task with a fresh uuid per compute."""
-    if isinstance(k, str) and k.startswith("finalize-"):
-        return "finalize"
+    """Dask names the final collection task with a fresh uuid per compute (also
+    inside fused key names): strip it from the log."""
+    if isinstance(k, str) and "finalize" in k:
+        return _FIN.sub("finalize", k)
     return k
+
+
+def _canon(d):
+    return {k: d[k] for k in sorted(d, key=str)}
 
 
 class _Fut:
@@ -54,11 +64,41 @@ class _Fut:
 
 
 class _Queue:
-    def __init__(self):
+    def __init__(self, getter=None):
         self.items = []
+        self.getter = getter
 
     def put(self, x):
         self.items.append(x)
+
+
+_TLS = threading.local()
+_INSTALLED = {}
+
+
+def _install():
+    """Replace dask.local's result queue once per process by a dispatcher: a
+    get_async running under a SimScheduler (thread-local) gets the simulated queue,
+    anything else gets the real one. Needed because several simulated caller
+    threads may be inside get_async at the same time."""
+    import dask.local as dl
+    if _INSTALLED.get("done"):
+        return
+    real_queue, real_get = dl.Queue, dl.queue_get
+
+    def queue_factory(*a, **kw):
+        g = getattr(_TLS, "getter", None)
+        if g is not None:
+            return _Queue(g)
+        return real_queue(*a, **kw)
+
+    def queue_get(q):
+        if isinstance(q, _Queue):
+            return q.getter(q)
+        return real_get(q)
+
+    dl.Queue, dl.queue_get = queue_factory, queue_get
+    _INSTALLED["done"] = True
 
 
 class SchedPlan:
@@ -144,11 +184,14 @@ class SimScheduler:
         def raise_exception(exc, tb):
             raise exc
 
+        # canonical insertion order: Dask's order()/cull()/fuse() break ties by dict
+        # iteration order, which otherwise depends on how the graph was assembled
+        dsk = _canon(ensure_dict(dsk))
         if plan.transport != "shared":
             # what dask.multiprocessing.get does before handing over to get_async
-            d1 = ensure_dict(dsk)
-            d2, deps = cull(d1, keys)
-            dsk, _ = fuse(d2, keys, deps)
+            d2, deps = cull(dsk, keys)
+            d3, _ = fuse(_canon(d2), keys, {k: deps[k] for k in sorted(deps, key=str)})
+            dsk = _canon(d3)
         inflight = []
         seq = [0]
         sim = self
@@ -199,14 +242,15 @@ class SimScheduler:
                 sim.order_log.append(norm_key(k))
             return f
 
-        old_q, old_get = dl.Queue, dl.queue_get
-        dl.Queue, dl.queue_get = _Queue, queue_get
+        _install()
+        prev = getattr(_TLS, "getter", None)
+        _TLS.getter = queue_get
         try:
             return dl.get_async(submit, plan.W, dsk, keys, dumps=dumps, loads=loads,
                                 pack_exception=pack_exception, raise_exception=raise_exception,
                                 chunksize=plan.chunksize)
         finally:
-            dl.Queue, dl.queue_get = old_q, old_get
+            _TLS.getter = prev
             self.ntasks += self.completed
 
     # -- mode free-order -----------------------------------------------------------
@@ -218,7 +262,7 @@ class SimScheduler:
         import cloudpickle
 
         plan, ctx, tape, label = self.plan, self.ctx, self.tape, self.label
-        dsk = convert_legacy_graph(dict(dsk))
+        dsk = convert_legacy_graph(_canon(dict(dsk)))
         want = set(flatten(keys)) if isinstance(keys, list) else {keys}
         # cull
         need, stack = set(), list(want)
